@@ -23,3 +23,11 @@ pub fn push_str_stub(_s: &mut String, _o: &str) {}
 pub fn addr_fmt_stub(a: &cosmwasm_std::Addr, f: &mut core::fmt::Formatter<'_>) -> core::fmt::Result {
     f.write_str(a.as_str())
 }
+
+/// `Binary::to_base64` (the `base64` crate's engine does not finish under CBMC even for one concrete
+/// byte).  Stand-in used where the property is "the returned value was JSON-ENCODED at all": the
+/// constant one-letter string `b` (a symbolic character makes serde_json_wasm's escaping loop not finish).  The
+/// base64 text itself is outside those claims.
+pub fn b64_stub(_b: &cosmwasm_std::Binary) -> String {
+    String::from("b")
+}
